@@ -198,9 +198,11 @@ class KnownFindings:
         return out
 
     @staticmethod
-    def region(entry, ctx, case):
+    def region(entry, ctx, case, label=""):
         """The input region of a finding, evaluated over the harness inputs (proxies or concrete)."""
-        env = {"inp": ctx.inputs, "case": case, "And": rt.And, "Or": rt.Or, "Not": rt.Not, "re": re}
+        m = re.search(r"@(\d+)", label)
+        env = {"inp": ctx.inputs, "case": case, "And": rt.And, "Or": rt.Or, "Not": rt.Not, "re": re, "label": label,
+               "at": int(m.group(1)) if m else None}
         return eval(entry.get("region", "True"), env, dict(ctx.inputs))
 
 
@@ -305,7 +307,7 @@ def _discharge(prop, ctx, case, kf, res):
         entries = kf.matching(prop, case, label)
         neg = z3.BoolVal(True) if cond is False else z3.Not(rt.bterm(cond))
         if entries:
-            regions = [rt.bterm(kf.region(e, ctx, case)) for e in entries]
+            regions = [rt.bterm(kf.region(e, ctx, case, label)) for e in entries]
             inside = z3.Or(*regions)
             r_in = ENGINE.check(neg, inside)
             if r_in == z3.sat:
